@@ -36,12 +36,14 @@ MESSAGES = [('Bad .fjm file: segment data-length must be even', 2),
 class LoaderFn(DevFn):
     self_role = 'device'
 
+    cls_name, path = 'Reader', PATH
+
     def __init__(self, tr, node, coq_name, static):
-        self.cls = 'Reader'
+        self.cls = self.cls_name
         self.static = static
         # DevFn.__init__ assumes a method; a staticmethod has no self
         from .gen_facts_engpy import Fn
-        Fn.__init__(self, tr, PATH, node, coq_name, not static, kwonly_ok=False)
+        Fn.__init__(self, tr, self.path, node, coq_name, not static, kwonly_ok=False)
         self.appended = set()
 
     def is_memory(self, node):
@@ -84,10 +86,10 @@ class LoaderFn(DevFn):
         if isinstance(e, (ast.GeneratorExp, ast.ListComp)):
             return self.comprehension(e)
         if isinstance(e, ast.Name) and e.id == '_reserved_dict_threshold' and e.id not in self.vars and \
-                e.id in self.tr.imported['Reader'].get('flipjump.fjm.fjm_consts', ()):
+                e.id in self.tr.imported[self.cls].get('flipjump.fjm.fjm_consts', ()):
             return f'EInt {self.tr.threshold}'
         if isinstance(e, ast.Attribute) and isinstance(e.value, ast.Name) and e.value.id == 'FJMVersion' and \
-                'FJMVersion' not in self.vars and 'FJMVersion' in self.tr.imported['Reader'].get('flipjump.fjm.fjm_consts', ()):
+                'FJMVersion' not in self.vars and 'FJMVersion' in self.tr.imported[self.cls].get('flipjump.fjm.fjm_consts', ()):
             if e.attr not in self.tr.versions:
                 self.err(e, 'unknown FJMVersion member')
             return f'EInt {self.tr.versions[e.attr]}'
@@ -192,7 +194,7 @@ class LoaderFn(DevFn):
             x = s.exc
             if s.cause is None and isinstance(x, ast.Call) and isinstance(x.func, ast.Name) and \
                     x.func.id == 'FlipJumpReadFjmException' and len(x.args) == 1 and not x.keywords and \
-                    x.func.id in self.tr.imported['Reader'].get('flipjump.utils.exceptions', ()):
+                    x.func.id in self.tr.imported[self.cls].get('flipjump.utils.exceptions', ()):
                 m = x.args[0]
                 head = m.value if isinstance(m, ast.Constant) else m.values[0].value if isinstance(m, ast.JoinedStr) and m.values \
                     and isinstance(m.values[0], ast.Constant) else None
